@@ -482,6 +482,72 @@ def formatEntry (st : Style) (cols lines : Nat) (resolve : Nat → Nat × Nat) (
   | (evs, .error e) => (img, evs.map (fun _ => EvE.termSize), .error e)   -- raised out of `_check_format_spec`
   | (_, .ok r) => ((rendererRun resolve img).1, EvE.termSize :: (rendererRun resolve img).2, .ok r)
 
+/-! ## which grammar a class uses: attribute lookup along the MRO; the entry points
+
+`_check_format_spec`, `__format__`, `ImageIterator.__init__`, `UrwidImage.__init__` all call
+`image._check_format_spec(spec)` — a classmethod bound to the *instance's class* `cls`.  Inside, `cls` is used
+three ways: `cls._check_style_format_spec` (method lookup), `cls._FORMAT_SPEC` / `cls._style_args` (attribute
+lookup), and the zero-argument `super()` in a style's `_check_style_format_spec`, which is
+`super(<the class whose body runs>, cls)`.  All are lookups along `cls.__mro__`.  An application-defined
+subclass defines none of them. -/
+
+inductive KName where
+  | app (n : Nat)            -- an application-defined subclass (defines nothing relevant)
+  | block | text | kitty | iterm2 | graphics | base
+deriving DecidableEq, Repr
+
+/-- `"_check_style_format_spec" in vars(k)` -/
+def KName.definesCheck : KName → Bool
+  | .kitty | .iterm2 | .base => true
+  | _ => false
+/-- `"_FORMAT_SPEC" in vars(k)` / `"_style_args" in vars(k)` with a non-empty table -/
+def KName.definesTables : KName → Bool
+  | .kitty | .iterm2 => true
+  | _ => false
+
+/-- `__mro__` of the three style classes -/
+def styleMro : Style → List KName
+  | .block => [.block, .text, .base]
+  | .kitty => [.kitty, .graphics, .base]
+  | .iterm2 => [.iterm2, .graphics, .base]
+
+/-- `super(k, cls).<attr>`: the first class after `k` in `cls.__mro__` that defines it -/
+def superOf (defines : KName → Bool) (k : KName) (mro : List KName) : Option KName :=
+  ((mro.dropWhile (· != k)).drop 1).find? defines
+
+/-- which style's grammar a class with this MRO uses — `none` when the lookups do not fit together
+    (e.g. a `super()` that does not end at `BaseImage`) -/
+def dispatch (mro : List KName) : Option Style :=
+  match mro.find? KName.definesCheck with
+  | some .base => some .block                                   -- the base check: no style part at all
+  | some .kitty =>
+    if mro.find? KName.definesTables = some .kitty ∧ superOf KName.definesCheck .kitty mro = some .base
+    then some .kitty else none
+  | some .iterm2 =>
+    if mro.find? KName.definesTables = some .iterm2 ∧ superOf KName.definesCheck .iterm2 mro = some .base
+    then some .iterm2 else none
+  | _ => none
+
+/-- `cls._check_format_spec(spec)` for a class given by its MRO -/
+def checkFormatSpecK (mro : List KName) (cols lines : Nat) (s : List Char) : Except Err Result :=
+  match dispatch mro with
+  | some st => checkFormatSpec st cols lines s
+  | none => .error .argValue
+
+/-- the ways a specifier reaches the library -/
+inductive Entry where
+  | check      -- `cls._check_format_spec(spec)`
+  | format     -- `format(image, spec)`, f-string, `str.format`
+  | iter       -- `ImageIterator(image, repeat, spec, cached)`
+  | urwid      -- `UrwidImage(image, spec)`
+deriving DecidableEq, Repr
+
+/-- the class an entry point validates against: always the class of the instance it was given -/
+def entryClass (_ : Entry) (instanceMro : List KName) : List KName := instanceMro
+
+def entryCheck (e : Entry) (instanceMro : List KName) (cols lines : Nat) (s : List Char) : Except Err Result :=
+  checkFormatSpecK (entryClass e instanceMro) cols lines s
+
 /-- explicit parameters of `draw()` -/
 structure DrawArgs where
   hAlign : Option (List Char)
